@@ -41,8 +41,52 @@
 //	F7  "typedecl <T> <U>" for every top-level "type T U" with U an Ident (file order).
 //	F8  A message type <Msg> is a top-level struct type that has a method named Frame (whatever
 //	    its receiver looks like) or that is a key of the md literal. Methods whose receiver base
-//	    type is not a message type, and plain functions other than Messages/New<Msg>/init, are
-//	    ignored (node code, String() of custom signal types).
+//	    type is not a message type, MessagesDescriptor (F10) or a "type T U" with U an Ident
+//	    (F11), and plain functions other than Messages/Nodes/New<Msg>/init, are ignored (node code).
+//
+// After the typedecl lines and before the first msg line come, in this order:
+//
+//	F9  Nodes. Exactly one "func Nodes() *NodesDescriptor { return nd }" and exactly one
+//	    "var nd = &NodesDescriptor{ <Node>: d.Nodes[<dec>], ... }" (own var spec, no type, one
+//	    value, possibly empty). type NodesDescriptor struct has exactly the literal's keys, same
+//	    order, each "<Node> *descriptor.Node".
+//	    -> per element, literal order: "node <Node> <ni> @L"
+//	F10 Dispatcher. The methods with receiver base type MessagesDescriptor are exactly, each with
+//	    receiver "(md *MessagesDescriptor)":
+//	      func (md *MessagesDescriptor) Database() *descriptor.Database { return d }
+//	      func (md *MessagesDescriptor) UnmarshalFrame(f can.Frame) (generated.Message, error) {
+//	          switch f.ID {                  the only statement; no init
+//	          case md.<Msg>.ID:              one expression; <Msg> is a message type
+//	              var msg <Msg>              the same <Msg>
+//	              if err := msg.UnmarshalFrame(f); err != nil {      no else
+//	                  return nil, fmt.Errorf(<string literal>, err)
+//	              }
+//	              return &msg, nil           -> dispatch case <Msg> @L(line of the case)
+//	          ...
+//	          default:                       required, last
+//	              return nil, fmt.Errorf(<string literal>, f.ID)
+//	          }                              -> dispatch default @L(line of default)
+//	      }
+//	F11 Enum types: every "type <T> <U>" (U Ident) that has methods must have exactly one method,
+//	    "func (v <T>) String() string" (value receiver named v). Block per such T, file order of
+//	    the type declarations:
+//	      enum <T> under=<U> @L(type spec)
+//	      enum <T> const <Name> value=<true|false|dec|-dec> @L     const entries, source order
+//	      enum <T> switch on=<v|bool(v)> @L
+//	      enum <T> string case=<true|false|dec|-dec> text=<hex> @L(case)     source order
+//	      enum <T> string default fmt=<hex> @L(the return fmt.Sprintf statement)
+//	      end-enum <T>
+//	    <hex> = lower-case hex of the bytes of the strconv.Unquote'd string literal.
+//	    Constants: any const declaration containing a spec with declared type <T> must be a
+//	    parenthesised "const ( ... )" block ALL of whose specs are "<Name> <T> = <const>" (one
+//	    name, explicit type T, one value true|false|<dec>|-<dec>). Several blocks are allowed.
+//	    String() is one of
+//	      { switch v { case <dec|-dec>: return <string literal> ... default: return fmt.Sprintf(<string literal>, v) } }
+//	          default required and last; "string default" line comes from it
+//	      { switch bool(v) { case true|false: return <string literal> ... }; return fmt.Sprintf(<string literal>, v) }
+//	          no default clause; "string default" line comes from the trailing return
+//	    every case has one expression and exactly one statement; switches have no init.
+//	    A "type T U" without methods only gets its typedecl line.
 //
 // # Per message type (file order of the struct declarations)
 //
@@ -979,8 +1023,10 @@ func (c *ctx) process(file *ast.File) {
 	structs := map[string]*ast.TypeSpec{}
 	var structOrder []string
 	var funcs []*ast.FuncDecl
-	var mdSpec *ast.ValueSpec
-	var messagesFn *ast.FuncDecl
+	var mdSpec, ndSpec *ast.ValueSpec
+	var messagesFn, nodesFn *ast.FuncDecl
+	var typedecls []*ast.TypeSpec
+	var constDecls []*ast.GenDecl
 	dCount := 0
 	top := func(id *ast.Ident) {
 		if predeclared[id.Name] {
@@ -990,6 +1036,9 @@ func (c *ctx) process(file *ast.File) {
 	for _, decl := range file.Decls {
 		switch d := decl.(type) {
 		case *ast.GenDecl:
+			if d.Tok == token.CONST {
+				constDecls = append(constDecls, d)
+			}
 			for _, sp := range d.Specs {
 				switch s := sp.(type) {
 				case *ast.TypeSpec:
@@ -1002,6 +1051,7 @@ func (c *ctx) process(file *ast.File) {
 					}
 					if u, ok := s.Type.(*ast.Ident); ok {
 						c.emit("typedecl", s.Name.Name, u.Name)
+						typedecls = append(typedecls, s)
 					}
 					if _, ok := s.Type.(*ast.StructType); ok {
 						if structs[s.Name.Name] != nil {
@@ -1025,6 +1075,15 @@ func (c *ctx) process(file *ast.File) {
 							}
 							mdSpec = s
 						}
+						if n.Name == "nd" {
+							if ndSpec != nil {
+								c.fail(n.Pos(), "duplicate declaration of nd")
+							}
+							if d.Tok != token.VAR || len(s.Names) != 1 || s.Type != nil || len(s.Values) != 1 {
+								c.fail(n.Pos(), "nd must be declared as var nd = &NodesDescriptor{...}")
+							}
+							ndSpec = s
+						}
 					}
 				}
 			}
@@ -1042,6 +1101,12 @@ func (c *ctx) process(file *ast.File) {
 						c.fail(d.Pos(), "duplicate func Messages")
 					}
 					messagesFn = d
+				}
+				if d.Name.Name == "Nodes" {
+					if nodesFn != nil {
+						c.fail(d.Pos(), "duplicate func Nodes")
+					}
+					nodesFn = d
 				}
 			}
 			funcs = append(funcs, d)
@@ -1246,6 +1311,11 @@ func (c *ctx) process(file *ast.File) {
 		}
 	}
 
+	isMsg := func(name string) bool { return msgs[name] != nil }
+	c.doNodes(file, ndSpec, nodesFn, structs["NodesDescriptor"])
+	c.doDispatch(file, funcs, isMsg)
+	c.doEnums(typedecls, constDecls, funcs)
+
 	for _, name := range structOrder {
 		mi := msgs[name]
 		if mi == nil {
@@ -1308,6 +1378,466 @@ func (c *ctx) doMessage(mi *msgInfo) {
 		c.doAccessor(fd, msg)
 	}
 	c.emit("end", msg, "statements="+strconv.Itoa(len(c.out)-start))
+}
+
+// ---- nodes, dispatcher, enum types ----------------------------------------------------
+
+// constVal matches true | false | <dec> | -<dec>.
+func constVal(e ast.Expr) (string, bool) {
+	if isIdent(e, "true") {
+		return "true", true
+	}
+	if isIdent(e, "false") {
+		return "false", true
+	}
+	return intVal(e)
+}
+
+// intVal matches <dec> | -<dec>.
+func intVal(e ast.Expr) (string, bool) {
+	if v, ok := decLit(e); ok {
+		return v, true
+	}
+	if u, ok := e.(*ast.UnaryExpr); ok && u.Op == token.SUB {
+		if v, ok := decLit(u.X); ok {
+			return "-" + v, true
+		}
+	}
+	return "", false
+}
+
+// strHex matches a string literal and returns the lower-case hex of its unquoted bytes.
+func strHex(e ast.Expr) (string, bool) {
+	b, ok := e.(*ast.BasicLit)
+	if !ok || b.Kind != token.STRING {
+		return "", false
+	}
+	s, err := strconv.Unquote(b.Value)
+	if err != nil {
+		return "", false
+	}
+	return fmt.Sprintf("%x", []byte(s)), true
+}
+
+// fmtCall matches fmt.<fn>(<string literal>, <arg>) and returns literal and argument.
+func fmtCall(e ast.Expr, fn string) (ast.Expr, ast.Expr, bool) {
+	fun, args, ok := callOf(e)
+	if !ok || len(args) != 2 {
+		return nil, nil, false
+	}
+	if n, ok := selOf(fun, "fmt"); !ok || n != fn {
+		return nil, nil, false
+	}
+	if b, ok := args[0].(*ast.BasicLit); !ok || b.Kind != token.STRING {
+		return nil, nil, false
+	}
+	return args[0], args[1], true
+}
+
+func (c *ctx) doNodes(file *ast.File, ndSpec *ast.ValueSpec, nodesFn *ast.FuncDecl, ts *ast.TypeSpec) {
+	if ndSpec == nil {
+		c.fail(file.Pos(), "no var nd = &NodesDescriptor{...}")
+	}
+	if nodesFn == nil {
+		c.fail(file.Pos(), "no func Nodes()")
+	}
+	if ts == nil {
+		c.fail(file.Pos(), "no type NodesDescriptor struct")
+	}
+	c.wantSig(nodesFn, nil, []string{"*NodesDescriptor"})
+	if len(nodesFn.Body.List) != 1 {
+		c.fail(nodesFn.Pos(), "Nodes: body must be exactly return nd")
+	}
+	if r, ok := returnOne(nodesFn.Body.List[0]); !ok || !isIdent(r, "nd") {
+		c.fail(nodesFn.Pos(), "Nodes: body must be exactly return nd")
+	}
+	const shape = "nd must be declared as var nd = &NodesDescriptor{<Node>: d.Nodes[<i>], ...}"
+	u, ok := ndSpec.Values[0].(*ast.UnaryExpr)
+	if !ok || u.Op != token.AND {
+		c.fail(ndSpec.Pos(), shape)
+	}
+	cl, ok := u.X.(*ast.CompositeLit)
+	if !ok || cl.Type == nil || !isIdent(cl.Type, "NodesDescriptor") {
+		c.fail(ndSpec.Pos(), shape)
+	}
+	var keys []string
+	for _, el := range cl.Elts {
+		kv, ok := el.(*ast.KeyValueExpr)
+		if !ok {
+			c.fail(el.Pos(), "nd literal: element is not <Node>: d.Nodes[<i>]")
+		}
+		key, ok := ident(kv.Key)
+		if !ok {
+			c.fail(el.Pos(), "nd literal: element is not <Node>: d.Nodes[<i>]")
+		}
+		ix, ok := kv.Value.(*ast.IndexExpr)
+		if !ok {
+			c.fail(el.Pos(), "nd literal: value of %s is not d.Nodes[<i>]", key)
+		}
+		n, ok1 := selOf(ix.X, "d")
+		idx, ok2 := decLit(ix.Index)
+		if !ok1 || !ok2 || n != "Nodes" {
+			c.fail(el.Pos(), "nd literal: value of %s is not d.Nodes[<i>]", key)
+		}
+		keys = append(keys, key)
+		c.emit("node", key, idx, c.line(el.Pos()))
+	}
+	fl := c.structFields(ts.Type.(*ast.StructType))
+	if len(fl) != len(keys) {
+		c.fail(ts.Pos(), "NodesDescriptor: %d fields but nd literal has %d entries", len(fl), len(keys))
+	}
+	for i, f := range fl {
+		if len(f.Names) != 1 || f.Tag != nil || f.Names[0].Name != keys[i] || typeStr(f.Type) != "*descriptor.Node" {
+			c.fail(f.Pos(), "NodesDescriptor: field %d must be %s *descriptor.Node", i, keys[i])
+		}
+	}
+}
+
+func (c *ctx) doDispatch(file *ast.File, funcs []*ast.FuncDecl, isMsg func(string) bool) {
+	var um, db *ast.FuncDecl
+	for _, fd := range funcs {
+		if fd.Recv == nil || c.recvBase(fd) != "MessagesDescriptor" {
+			continue
+		}
+		r := fd.Recv.List[0]
+		if len(r.Names) != 1 || r.Names[0].Name != "md" || typeStr(r.Type) != "*MessagesDescriptor" {
+			c.fail(fd.Pos(), "method MessagesDescriptor.%s: receiver must be (md *MessagesDescriptor)", fd.Name.Name)
+		}
+		switch fd.Name.Name {
+		case "UnmarshalFrame":
+			if um != nil {
+				c.fail(fd.Pos(), "duplicate method MessagesDescriptor.UnmarshalFrame")
+			}
+			um = fd
+		case "Database":
+			if db != nil {
+				c.fail(fd.Pos(), "duplicate method MessagesDescriptor.Database")
+			}
+			db = fd
+		default:
+			c.fail(fd.Pos(), "unexpected method MessagesDescriptor.%s", fd.Name.Name)
+		}
+	}
+	if um == nil {
+		c.fail(file.Pos(), "no method MessagesDescriptor.UnmarshalFrame")
+	}
+	if db == nil {
+		c.fail(file.Pos(), "no method MessagesDescriptor.Database")
+	}
+	c.wantSig(db, nil, []string{"*descriptor.Database"})
+	if len(db.Body.List) != 1 {
+		c.fail(db.Pos(), "MessagesDescriptor.Database: body must be exactly return d")
+	}
+	if r, ok := returnOne(db.Body.List[0]); !ok || !isIdent(r, "d") {
+		c.fail(db.Pos(), "MessagesDescriptor.Database: body must be exactly return d")
+	}
+
+	const where = "MessagesDescriptor.UnmarshalFrame"
+	c.wantSig(um, [][2]string{{"f", "can.Frame"}}, []string{"generated.Message", "error"})
+	if len(um.Body.List) != 1 {
+		c.fail(um.Pos(), "%s: body must be exactly one switch f.ID {...}", where)
+	}
+	sw, ok := um.Body.List[0].(*ast.SwitchStmt)
+	if !ok || sw.Init != nil || sw.Tag == nil {
+		c.fail(um.Body.List[0].Pos(), "%s: body must be exactly one switch f.ID {...}", where)
+	}
+	if n, ok := selOf(sw.Tag, "f"); !ok || n != "ID" {
+		c.fail(sw.Pos(), "%s: switch tag must be f.ID", where)
+	}
+	// return <first>, <second> with exactly two results
+	ret2 := func(s ast.Stmt) (ast.Expr, ast.Expr, bool) {
+		r, ok := s.(*ast.ReturnStmt)
+		if !ok || len(r.Results) != 2 {
+			return nil, nil, false
+		}
+		return r.Results[0], r.Results[1], true
+	}
+	n := len(sw.Body.List)
+	if n == 0 {
+		c.fail(sw.Pos(), "%s: default clause is missing", where)
+	}
+	for i, cs := range sw.Body.List {
+		cc, ok := cs.(*ast.CaseClause)
+		if !ok {
+			c.fail(cs.Pos(), "%s: malformed switch clause", where)
+		}
+		if cc.List == nil {
+			if i != n-1 {
+				c.fail(cc.Pos(), "%s: default clause must be last", where)
+			}
+			const shape = "%s: default body must be exactly return nil, fmt.Errorf(<string literal>, f.ID)"
+			if len(cc.Body) != 1 {
+				c.fail(cc.Pos(), shape, where)
+			}
+			a, b, ok := ret2(cc.Body[0])
+			if !ok || !isIdent(a, "nil") {
+				c.fail(cc.Body[0].Pos(), shape, where)
+			}
+			_, arg, ok := fmtCall(b, "Errorf")
+			if !ok {
+				c.fail(cc.Body[0].Pos(), shape, where)
+			}
+			if x, ok := selOf(arg, "f"); !ok || x != "ID" {
+				c.fail(cc.Body[0].Pos(), shape, where)
+			}
+			c.emit("dispatch", "default", c.line(cc.Pos()))
+			continue
+		}
+		if i == n-1 {
+			c.fail(cc.Pos(), "%s: last clause must be default", where)
+		}
+		if len(cc.List) != 1 {
+			c.fail(cc.Pos(), "%s: every case must have exactly one expression", where)
+		}
+		const cshape = "%s: case expression must be md.<Msg>.ID"
+		cs1, ok := cc.List[0].(*ast.SelectorExpr)
+		if !ok || cs1.Sel.Name != "ID" {
+			c.fail(cc.Pos(), cshape, where)
+		}
+		msg, ok := selOf(cs1.X, "md")
+		if !ok {
+			c.fail(cc.Pos(), cshape, where)
+		}
+		if !isMsg(msg) {
+			c.fail(cc.Pos(), "%s: case md.%s.ID: %s is not a message type", where, msg, msg)
+		}
+		if len(cc.Body) != 3 {
+			c.fail(cc.Pos(), "%s: case body must be [var msg %s; if err := msg.UnmarshalFrame(f); err != nil {...}; return &msg, nil]", where, msg)
+		}
+		// var msg <Msg>
+		ds, ok := cc.Body[0].(*ast.DeclStmt)
+		good := ok
+		var vs *ast.ValueSpec
+		if good {
+			gd, ok := ds.Decl.(*ast.GenDecl)
+			good = ok && gd.Tok == token.VAR && len(gd.Specs) == 1
+			if good {
+				vs, good = gd.Specs[0].(*ast.ValueSpec)
+			}
+		}
+		if !good || len(vs.Names) != 1 || vs.Names[0].Name != "msg" || len(vs.Values) != 0 || vs.Type == nil {
+			c.fail(cc.Body[0].Pos(), "%s: first statement of the case must be var msg %s", where, msg)
+		}
+		if t, ok := ident(vs.Type); !ok || t != msg {
+			c.fail(cc.Body[0].Pos(), "%s: case md.%s.ID constructs another type (want var msg %s)", where, msg, msg)
+		}
+		// if err := msg.UnmarshalFrame(f); err != nil { return nil, fmt.Errorf("...", err) }
+		const ishape = "%s: second statement of the case must be if err := msg.UnmarshalFrame(f); err != nil { return nil, fmt.Errorf(<string literal>, err) }"
+		is, ok := cc.Body[1].(*ast.IfStmt)
+		if !ok || is.Init == nil || is.Else != nil || len(is.Body.List) != 1 {
+			c.fail(cc.Body[1].Pos(), ishape, where)
+		}
+		as, ok := is.Init.(*ast.AssignStmt)
+		if !ok || as.Tok != token.DEFINE || len(as.Lhs) != 1 || len(as.Rhs) != 1 || !isIdent(as.Lhs[0], "err") {
+			c.fail(cc.Body[1].Pos(), ishape, where)
+		}
+		fun, args, ok := callOf(as.Rhs[0])
+		if !ok || len(args) != 1 || !isIdent(args[0], "f") {
+			c.fail(cc.Body[1].Pos(), ishape, where)
+		}
+		if x, ok := selOf(fun, "msg"); !ok || x != "UnmarshalFrame" {
+			c.fail(cc.Body[1].Pos(), ishape, where)
+		}
+		be, ok := is.Cond.(*ast.BinaryExpr)
+		if !ok || be.Op != token.NEQ || !isIdent(be.X, "err") || !isIdent(be.Y, "nil") {
+			c.fail(cc.Body[1].Pos(), ishape, where)
+		}
+		a, b, ok := ret2(is.Body.List[0])
+		if !ok || !isIdent(a, "nil") {
+			c.fail(is.Body.List[0].Pos(), ishape, where)
+		}
+		if _, arg, ok := fmtCall(b, "Errorf"); !ok || !isIdent(arg, "err") {
+			c.fail(is.Body.List[0].Pos(), ishape, where)
+		}
+		// return &msg, nil
+		a, b, ok = ret2(cc.Body[2])
+		good = ok && isIdent(b, "nil")
+		if good {
+			u, ok := a.(*ast.UnaryExpr)
+			good = ok && u.Op == token.AND && isIdent(u.X, "msg")
+		}
+		if !good {
+			c.fail(cc.Body[2].Pos(), "%s: last statement of the case must be return &msg, nil", where)
+		}
+		c.emit("dispatch", "case", msg, c.line(cc.Pos()))
+	}
+}
+
+func (c *ctx) doEnums(typedecls []*ast.TypeSpec, constDecls []*ast.GenDecl, funcs []*ast.FuncDecl) {
+	methods := map[string][]*ast.FuncDecl{}
+	for _, fd := range funcs {
+		if fd.Recv != nil {
+			b := c.recvBase(fd)
+			methods[b] = append(methods[b], fd)
+		}
+	}
+	enums := map[string]*ast.FuncDecl{}
+	for _, ts := range typedecls {
+		t := ts.Name.Name
+		ms := methods[t]
+		if len(ms) == 0 {
+			continue
+		}
+		for _, fd := range ms {
+			if fd.Name.Name != "String" {
+				c.fail(fd.Pos(), "unexpected method %s.%s on a custom signal type", t, fd.Name.Name)
+			}
+		}
+		if len(ms) != 1 {
+			c.fail(ms[1].Pos(), "duplicate method %s.String", t)
+		}
+		r := ms[0].Recv.List[0]
+		if len(r.Names) != 1 || r.Names[0].Name != "v" || typeStr(r.Type) != t {
+			c.fail(ms[0].Pos(), "method %s.String: receiver must be (v %s)", t, t)
+		}
+		enums[t] = ms[0]
+	}
+	// const blocks
+	constLines := map[string][]string{}
+	for _, gd := range constDecls {
+		owner := ""
+		for _, sp := range gd.Specs {
+			vs := sp.(*ast.ValueSpec)
+			if vs.Type == nil {
+				continue
+			}
+			if t, ok := ident(vs.Type); ok && enums[t] != nil {
+				owner = t
+				break
+			}
+		}
+		if owner == "" {
+			continue
+		}
+		if !gd.Lparen.IsValid() {
+			c.fail(gd.Pos(), "constants of type %s must be declared in a const ( ... ) block", owner)
+		}
+		for _, sp := range gd.Specs {
+			vs := sp.(*ast.ValueSpec)
+			const shape = "const block of %s: every entry must be <Name> %s = <true|false|decimal|-decimal>"
+			if len(vs.Names) != 1 || vs.Type == nil || !isIdent(vs.Type, owner) || len(vs.Values) != 1 {
+				c.fail(vs.Pos(), shape, owner, owner)
+			}
+			name, ok1 := ident(vs.Names[0])
+			val, ok2 := constVal(vs.Values[0])
+			if !ok1 || !ok2 {
+				c.fail(vs.Pos(), shape, owner, owner)
+			}
+			constLines[owner] = append(constLines[owner],
+				strings.Join([]string{"enum", owner, "const", name, "value=" + val, c.line(vs.Pos())}, " "))
+		}
+	}
+	for _, ts := range typedecls {
+		t := ts.Name.Name
+		fd := enums[t]
+		if fd == nil {
+			continue
+		}
+		where := t + ".String"
+		c.emit("enum", t, "under="+ts.Type.(*ast.Ident).Name, c.line(ts.Pos()))
+		c.out = append(c.out, constLines[t]...)
+		c.wantSig(fd, nil, []string{"string"})
+		l := fd.Body.List
+		if len(l) < 1 {
+			c.fail(fd.Pos(), "%s: body must start with a switch", where)
+		}
+		sw, ok := l[0].(*ast.SwitchStmt)
+		if !ok || sw.Init != nil || sw.Tag == nil {
+			c.fail(l[0].Pos(), "%s: first statement must be switch v {...} or switch bool(v) {...}", where)
+		}
+		boolForm := false
+		if isIdent(sw.Tag, "v") {
+			c.emit("enum", t, "switch", "on=v", c.line(sw.Pos()))
+		} else if cv, arg, ok := convOf(sw.Tag); ok && cv == "bool" && isIdent(arg, "v") {
+			boolForm = true
+			c.emit("enum", t, "switch", "on=bool(v)", c.line(sw.Pos()))
+		} else {
+			c.fail(sw.Pos(), "%s: switch tag must be v or bool(v)", where)
+		}
+		sprintf := func(s ast.Stmt) {
+			const shape = "%s: statement must be exactly return fmt.Sprintf(<string literal>, v)"
+			r, ok := returnOne(s)
+			if !ok {
+				c.fail(s.Pos(), shape, where)
+			}
+			lit, arg, ok := fmtCall(r, "Sprintf")
+			if !ok || !isIdent(arg, "v") {
+				c.fail(s.Pos(), shape, where)
+			}
+			h, ok := strHex(lit)
+			if !ok {
+				c.fail(s.Pos(), shape, where)
+			}
+			c.emit("enum", t, "string", "default", "fmt="+h, c.line(s.Pos()))
+		}
+		n := len(sw.Body.List)
+		sawDefault := false
+		for i, cs := range sw.Body.List {
+			cc, ok := cs.(*ast.CaseClause)
+			if !ok {
+				c.fail(cs.Pos(), "%s: malformed switch clause", where)
+			}
+			if cc.List == nil {
+				if boolForm {
+					c.fail(cc.Pos(), "%s: switch bool(v) must not have a default clause", where)
+				}
+				if i != n-1 {
+					c.fail(cc.Pos(), "%s: default clause must be last", where)
+				}
+				if len(cc.Body) != 1 {
+					c.fail(cc.Pos(), "%s: default body must be exactly return fmt.Sprintf(<string literal>, v)", where)
+				}
+				sprintf(cc.Body[0])
+				sawDefault = true
+				continue
+			}
+			if len(cc.List) != 1 {
+				c.fail(cc.Pos(), "%s: every case must have exactly one expression", where)
+			}
+			var val string
+			if boolForm {
+				if isIdent(cc.List[0], "true") {
+					val = "true"
+				} else if isIdent(cc.List[0], "false") {
+					val = "false"
+				} else {
+					c.fail(cc.Pos(), "%s: case expression must be true or false", where)
+				}
+			} else {
+				v, ok := intVal(cc.List[0])
+				if !ok {
+					c.fail(cc.Pos(), "%s: case expression must be <decimal> or -<decimal>", where)
+				}
+				val = v
+			}
+			if len(cc.Body) != 1 {
+				c.fail(cc.Pos(), "%s: case body must be exactly return <string literal>", where)
+			}
+			r, ok := returnOne(cc.Body[0])
+			if !ok {
+				c.fail(cc.Body[0].Pos(), "%s: case body must be exactly return <string literal>", where)
+			}
+			h, ok := strHex(r)
+			if !ok {
+				c.fail(cc.Body[0].Pos(), "%s: case body must be exactly return <string literal>", where)
+			}
+			c.emit("enum", t, "string", "case="+val, "text="+h, c.line(cc.Pos()))
+		}
+		if boolForm {
+			if len(l) != 2 {
+				c.fail(fd.Pos(), "%s: body must be [switch bool(v) {...}; return fmt.Sprintf(<string literal>, v)]", where)
+			}
+			sprintf(l[1])
+		} else {
+			if !sawDefault {
+				c.fail(sw.Pos(), "%s: switch v must end with a default clause", where)
+			}
+			if len(l) != 1 {
+				c.fail(l[1].Pos(), "%s: body must be exactly one switch v {...}", where)
+			}
+		}
+		c.emit("end-enum", t)
+	}
 }
 
 // ---- driver ---------------------------------------------------------------------------
